@@ -24,6 +24,8 @@ import (
 	"net/http"
 	"net/url"
 	"sync"
+	"sync/atomic"
+	"syscall"
 	"time"
 
 	vk "github.com/sheerbytes/sheerbytes/internal/verifkit"
@@ -60,9 +62,13 @@ func c14GenFirstRounds(e *Env) []c14Round {
 
 // c14FreshIP: the k-th fresh source address of a round (never 127.0.0.x, which the other
 // rounds use).
-func c14FreshIP(seed uint64, k int) net.IP {
-	return net.IPv4(127, byte(1+seed%200), byte(1+k/250), byte(1+k%250))
+func c14FreshIP(octet int, k int) net.IP {
+	return net.IPv4(127, byte(1+octet%200), byte(1+k/250), byte(1+k%250))
 }
+
+var c14FirstOctet atomic.Int64 // rounds running at the same time use different 127.x/16 blocks
+
+const c14FirstSrcPort = 61100
 
 // c14RawReq sends one request on a pre-dialled connection: everything but the last byte before
 // the barrier, the last byte behind it; returns the bracket and the parsed reply.
@@ -83,8 +89,22 @@ func c14RawBurst(port int, ip net.IP, reqs [][]byte) []c14RawRes {
 		go func(i int) {
 			defer wg.Done()
 			r := &res[i]
-			d := &net.Dialer{Timeout: 5 * time.Second, LocalAddr: &net.TCPAddr{IP: ip}}
+			// fixed source ports outside the ephemeral range (every address is used once, so the same 16-32
+			// port numbers serve all of them), SO_REUSEADDR and a reset instead of a FIN at the end: the
+			// thousands of connections of a round leave no TIME_WAIT entries that would keep ephemeral
+			// ports busy for the servers other rounds / other checks start on the same machine
+			d := &net.Dialer{Timeout: 5 * time.Second, LocalAddr: &net.TCPAddr{IP: ip, Port: c14FirstSrcPort + i},
+				Control: func(network, address string, rc syscall.RawConn) error {
+					var serr error
+					if err := rc.Control(func(fd uintptr) { serr = syscall.SetsockoptInt(int(fd), syscall.SOL_SOCKET, syscall.SO_REUSEADDR, 1) }); err != nil {
+						return err
+					}
+					return serr
+				}}
 			conn, err := d.Dial("tcp", fmt.Sprintf("127.0.0.1:%d", port))
+			if tc, ok := conn.(*net.TCPConn); ok && err == nil {
+				_ = tc.SetLinger(0)
+			}
 			if err == nil {
 				_ = conn.SetDeadline(time.Now().Add(20 * time.Second))
 				_, err = conn.Write(reqs[i][:len(reqs[i])-1])
@@ -145,13 +165,14 @@ func (x *c14Run) roundRateFirst(r c14Round, srv *c14Server) {
 		code = sess.Code
 	}
 	host := fmt.Sprintf("127.0.0.1:%d", srv.Port)
+	octet := int(c14FirstOctet.Add(1))
 	caseSpec := map[string]any{"round": r, "flags": r.Cfg.flags()}
 	decided, sharp, maxAdmitted, violated := 0, 0, 0, 0
 	var worstAll c14RateWorst
 	worstAll.Excess = -1e18
 	var firstObs map[string]any
 	for k := 0; k < r.N; k++ {
-		ip := c14FreshIP(r.Seed, k)
+		ip := c14FreshIP(octet, k)
 		reqs := make([][]byte, r.Prefill)
 		for i := range reqs {
 			if ws {
@@ -161,7 +182,7 @@ func (x *c14Run) roundRateFirst(r c14Round, srv *c14Server) {
 				q.Set("role", "receiver")
 				reqs[i] = []byte("GET /ws?" + q.Encode() + " HTTP/1.1\r\nHost: " + host + "\r\nUpgrade: websocket\r\nConnection: Upgrade\r\nSec-WebSocket-Key: dGhlIHNhbXBsZSBub25jZQ==\r\nSec-WebSocket-Version: 13\r\n\r\n")
 			} else {
-				reqs[i] = []byte("POST /session HTTP/1.1\r\nHost: " + host + "\r\nContent-Length: 0\r\nConnection: close\r\n\r\n")
+				reqs[i] = []byte("POST /session HTTP/1.1\r\nHost: " + host + "\r\nContent-Length: 0\r\n\r\n")
 			}
 		}
 		res := c14RawBurst(srv.Port, ip, reqs)
